@@ -53,5 +53,8 @@ impl LoopSignal {
         invariant
             forall|d: &mut Data| #[trigger] call_requires(cb, (d,)),
             self.stop_flag() == old(self).stop_flag(),
+        ensures
+            // (stated on the loop so that it holds for either form of it: `while !stop {..}` or `loop { if stop { break } .. }`)
+            w_flag_loaded(old(self).stop_flag(), true),
 //@ enditem
 //@ close
